@@ -230,7 +230,7 @@ def opusTableLoop (s16 : Sector) (spt : Nat) (geomCyl : Option Nat) :
   | 0, _, _, acc => .ok acc.reverse
   | fuel + 1, i, offset, acc =>
     let track := sget s16 offset
-    if track == 0 then opusTableLoop s16 spt geomCyl fuel (i + 1) offset acc
+    if track == 0 then opusTableLoop s16 spt geomCyl fuel (i + 1) (offset + 2) acc
     else
       match geomCyl with
       | some c =>
@@ -544,19 +544,21 @@ def identifyFileSystem (m : Media) (g : Geometry) (il : Bool) (ndebug : Bool) : 
 
 def singleSide (g : Geometry) : Geometry := { g with heads := 1 }
 
-/-- views of a non-interleaved .ssd/.sdd with identified geometry `g` -/
-def viewsNonInterleaved (g : Geometry) : List View :=
+/-- view of side `k` of a non-interleaved .ssd/.sdd with identified geometry `g` -/
+def viewNI (g : Geometry) (k : Nat) : View :=
   let ss := singleSide g
   let sideLen := ss.totalSectors
-  (List.range g.heads).map fun k =>
-    { skip := k * sideLen, take := sideLen, leave := 0, total := sideLen, geom := ss, desc := "" }
+  { skip := k * sideLen, take := sideLen, leave := 0, total := sideLen, geom := ss, desc := "" }
 
-/-- views of a track-interleaved .dsd/.ddd -/
-def viewsInterleaved (g : Geometry) : List View :=
+def viewsNonInterleaved (g : Geometry) : List View := (List.range g.heads).map (viewNI g)
+
+/-- view of side `k` (0 or 1) of a track-interleaved .dsd/.ddd -/
+def viewIL (g : Geometry) (k : Nat) : View :=
   let ss := singleSide g
   let t := ss.sectors
-  [ { skip := 0, take := t, leave := t, total := ss.totalSectors, geom := ss, desc := "" },
-    { skip := t, take := t, leave := t, total := ss.totalSectors, geom := ss, desc := "" } ]
+  { skip := k * t, take := t, leave := t, total := ss.totalSectors, geom := ss, desc := "" }
+
+def viewsInterleaved (g : Geometry) : List View := [viewIL g 0, viewIL g 1]
 
 def mmbGeom : Geometry := { cylinders := 80, heads := 1, sectors := 10, encoding := some Encoding.FM }
 
